@@ -603,3 +603,43 @@ def rule_termination(prog: Program, modules: Optional[Set[str]] = None) -> List[
                                 f"loop advancing `{var}` by `{step}` is reached only with {src_} > 0" if positive else
                                 f"`while {short(n.test)}` advances by the caller-supplied `{src_}` without that being known positive: {src_} = 0 (or negative, or NaN) never terminates", fi.where(n)))
     return out
+
+
+# ---------------------------------------------------------------------------------------------
+# R-INTIDX: telling an integer index from a slice
+# ---------------------------------------------------------------------------------------------
+def rule_intidx(prog: Program, modules: Optional[Set[str]] = None) -> List[Instance]:
+    """`isinstance(s, int)` is False for numpy integers - which is what np.argwhere, locate() on numpy
+    input or a loop over an index array hand over. Where the other branch treats `s` as a slice
+    (reads .start / .stop / .step), a numpy integer index lands there and fails with AttributeError.
+    The discriminating test must be on the slice (`isinstance(s, slice)`) or cover numpy integers
+    (numbers.Integral, np.integer, operator.index)."""
+    out: List[Instance] = []
+    for fi in prog.all_functions(modules):
+        for n in walk_own(fi.node):
+            if not isinstance(n, ast.If):
+                continue
+            t = n.test
+            neg = False
+            while isinstance(t, ast.UnaryOp) and isinstance(t.op, ast.Not):
+                t, neg = t.operand, not neg
+            if not (isinstance(t, ast.Call) and call_name(t) == "isinstance" and len(t.args) == 2 and isinstance(t.args[0], ast.Name)):
+                continue
+            var = t.args[0].id
+            ty = t.args[1]
+            ty_names = {short(x) for x in (ty.elts if isinstance(ty, ast.Tuple) else [ty])}
+            # does the function treat the same variable as a slice anywhere (other branch or later code)?
+            as_slice = any(isinstance(x, ast.Attribute) and x.attr in ("start", "stop", "step") and isinstance(x.value, ast.Name) and x.value.id == var for x in walk_own(fi.node)) or \
+                any(isinstance(x, ast.Call) and call_name(x) == "isinstance" and len(x.args) == 2 and short(x.args[0]) == var and "slice" in short(x.args[1]) for x in walk_own(fi.node) if x is not t)
+            if not as_slice:
+                continue
+            if ty_names == {"slice"}:
+                if not any(i.construct == f"{fi.qual}#int-or-slice:{var}" for i in out):
+                    out.append(Instance("R-INTIDX", f"{fi.qual}#int-or-slice:{var}", OK, f"`{var}` is told apart by isinstance({var}, slice): any integer type is an index", fi.where(n)))
+                continue
+            if "int" in ty_names:
+                wide = bool(ty_names & {"numpy.integer", "np.integer", "numbers.Integral", "Integral", "numpy.integer"}) or any("integer" in x or "Integral" in x for x in ty_names)
+                out.append(Instance("R-INTIDX", f"{fi.qual}#int-or-slice:{var}", OK if wide else BAD,
+                                    f"`{short(t)}` covers numpy integers" if wide else
+                                    f"`{short(t)}` tells an index from a slice by the builtin int only: a numpy integer index ({var} = np.int64(3)) is treated as a slice and fails on .start", fi.where(n)))
+    return out
